@@ -139,6 +139,31 @@ theorem insert_remove {α : Type} (a xs : List α) (i : Nat) (hi : i ≤ a.lengt
     (arrayInsert a i xs).bind (fun r => arrayRemove r i xs.length) = some a :=
   arrayInsert_remove a xs i hi h32
 
+/-! ### ☆ KMP (string.c kmp_init / kmp_next / kmp_seti) computes the naive definitions -/
+
+/-- `kmp_eq_naive`: for every non-empty pattern, text, start index and limit, the mirror of the C state machine
+    (failure table = longest proper border of each prefix, proved in `Kmp.lookupTable_spec`; search loop invariant in
+    `Kmp.next_spec`) returns exactly what the naive reference definitions of Lib/Spec.lean return: the least match for
+    `string/find`, all (overlapping) matches for `string/find-all`, and the same rewritten text / pieces for
+    `string/replace-all` and `string/split`, whose loops restart the machine after each match. -/
+theorem kmp_eq_naive (pat text : Bytes) (start : Nat) (hp : pat ≠ []) :
+    Kmp.find pat text start = findFrom pat text start ∧
+    Kmp.findAll pat text start = findAll pat text start ∧
+    (∀ subst, some (Kmp.replaceAll pat subst text start) = replaceAll pat subst text start) ∧
+    (∀ limit, some (Kmp.split pat text start limit) = split pat text start limit) :=
+  ⟨Kmp.find_eq_naive pat text start hp, Kmp.findAll_eq_naive pat text start hp,
+   fun subst => Kmp.replaceAll_eq_naive pat subst text start hp,
+   fun limit => Kmp.split_eq_naive pat text start limit hp⟩
+
+/-- the failure table built by `kmp_init` holds, for every prefix, the length of its longest proper border -/
+theorem kmp_table_spec (pat : Array Nat) (hne : 0 < pat.size) :
+    (Kmp.lookupTable pat).size = pat.size ∧
+    ∀ m, 1 ≤ m → m ≤ pat.size → Kmp.IsLPB (fun k => pat.getD k 0) m ((Kmp.lookupTable pat).getD (m - 1) 0) :=
+  Kmp.lookupTable_spec pat hne
+
+example : Kmp.lookupTable #[97, 97, 98, 97, 97, 97] = #[0, 1, 0, 1, 2, 2] := by decide
+example : Kmp.findAll [97, 97] [97, 97, 97, 97] 0 = [0, 1, 2] := by decide
+
 /-! ### sort (boot.janet sort-help: median-of-three with `<=`, Hoare partition with `before?`) -/
 
 /-- ☆ PARTIAL (`sort_perm_sorted`): proved for EVERY comparator, strict or not — whenever `sort` returns, the result is a
